@@ -109,7 +109,8 @@ def stepC03 (dflt : Int) (d : Nat) (st : PState d) (op : Json) (obs : Json) : Ex
       let v ← fInt op "v"
       let n ← fNat op "shape"
       let cs : List Int := (List.range n).map Int.ofNat
-      let t' := cs.foldl (fun t c => updateAt (fun x => x + v) d (refAt dflt d t (p ++ [c])) (p ++ [c])) (refAt dflt d st.tree p)
+      -- the history `iadd (p ++ [c]) v`, c over the extent, after the reference (theorem iadd_scalar_leaf_fiber)
+      let t' := (pointRun dflt d (refAt dflt d st.tree p) (cs.map (fun c => PointOp.iadd (p ++ [c]) v))).1
       let spec' : PMap := cs.foldl (fun m c => m.set (p ++ [c]) (m.get dflt (p ++ [c]) + v)) st.spec
       pure (t', optTreeJson d p t' dflt, spec', Json.null)
     | "iaddfp" =>
